@@ -16,6 +16,7 @@ mod c14;
 mod c16;
 mod c20;
 mod denote;
+mod hist;
 mod universe;
 
 use vcore::report::run_guarded;
